@@ -64,7 +64,7 @@ LEVEL_TEXT = (
 TECHNIQUE = "Lean 4 kernel evaluation of translator-generated tables + general string-model theorems + exhaustive correspondence"
 RULE = (
     "exhaustive: every element row x {int Z, str Z, symbol, name} and every nuclide label x {as-is, lower, upper, random mixed case} "
-    "x accessors {to_Z,to_E,to_element (strict off/on), to_A, to_mass (Decimal+float), to_period, to_group} and the second names "
+    "x accessors {to_Z,to_E,to_element (strict off/on), to_A, to_mass (Decimal+float), to_period, to_group} and the second names; a sample of the mass / mass-number lookups is repeated inside decimal.localcontext() with narrowed precision and other rounding modes (same oracle) "
     "{to_atomic_number,to_symbol,to_name (strict off/on), to_mass_number} (all alias forms of element rows, one spelling per nuclide label); "
     "the nuclide labels are the union of those NIST tabulates (raw JSON) and those the shipped table has; every successful mass is also "
     "checked against the reported mass number (mass excess bound) and, for bare elements, against the mass of the label <symbol><to_A>; "
@@ -425,6 +425,24 @@ def run(ctx: Ctx) -> Outcome:
         # ---- correspondence
         if ml is not None and ml != got.split(" FLOAT")[0]:
             out.mismatches.append(Finding("mismatch", {"accessor": acc, "strict": st, "arg": arg, "species": species, "tag": tag}, observed=got, expected=ml, detail="implementation vs Lean model"))
+    # ---- ambient state: the answers (the Decimal mass in particular: "exactly those of NIST") do not depend on the caller's
+    #      decimal context (precision / rounding mode set by the surrounding program, e.g. inside decimal.localcontext())
+    import decimal
+
+    dctxs = [{"prec": 8, "rounding": decimal.ROUND_HALF_EVEN}, {"prec": 3, "rounding": decimal.ROUND_DOWN},
+             {"prec": 12, "rounding": decimal.ROUND_UP}, {"prec": 5, "rounding": decimal.ROUND_CEILING}, {"prec": 1, "rounding": decimal.ROUND_FLOOR}]
+    pool = [c for c in cases if c[0].partition("@")[0] in ("mass", "massbits", "A") and c[3] not in (None, "?")]
+    for acc, st, arg, species, tag in rng.sample(pool, min(len(pool), ctx.scale(2500, 30000))):
+        dc = rng.choice(dctxs)
+        with decimal.localcontext() as lc:
+            lc.prec, lc.rounding = dc["prec"], dc["rounding"]
+            got = call_impl(pt, acc, st, arg)
+        out.evaluations += 1
+        out.count("ambient:decimal_context prec=%d" % dc["prec"])
+        for f in judge(pt, T, acc, st, arg, species, tag, got):
+            f.case["decimal_context"] = dc
+            f.detail = (f.detail + "; " if f.detail else "") + f"under decimal.localcontext(prec={dc['prec']}, rounding={dc['rounding']})"
+            out.violations.append(f)
     # ---- the oracle's own sources must not contradict each other (raw NIST file vs embedded textbook table)
     for sym, why in T.conflicts:
         got = call_impl(pt, "A", 0, sym)
@@ -445,7 +463,14 @@ def replay(ctx: Ctx, case) -> Outcome:
     pt = qcel.periodictable
     out = Outcome()
     acc, st, arg = case["accessor"], case["strict"], case["arg"]
-    got = call_impl(pt, acc, st, arg)
+    if case.get("decimal_context"):
+        import decimal
+
+        with decimal.localcontext() as lc:
+            lc.prec, lc.rounding = case["decimal_context"]["prec"], case["decimal_context"]["rounding"]
+            got = call_impl(pt, acc, st, arg)
+    else:
+        got = call_impl(pt, acc, st, arg)
     line = enc(acc, st, arg)
     ml = ctx.run_model(DRIVER, [line])[0] if ctx.model_available else None
     out.evaluations = 1
